@@ -194,6 +194,37 @@ pub fn validate_case(n: usize, obj: Obj, out_act: Act, symbolic_weights: bool) -
     }
 }
 
+/// The accuracy rule in Float32: a component scores iff `|target - prediction| < tolerance` evaluated in single precision —
+/// for every tolerance and every magnitude of the target (a reformulation such as `t - tol <= p < t + tol` absorbs the
+/// tolerance for large targets). Identity weights, so the prediction is the (symbolic) input itself.
+pub fn accuracy_float_case(nout: usize) -> Case {
+    Case {
+        id: format!("C12/accuracy-rule-in-floats/{}out", nout),
+        property: "C12",
+        family: "Network::validate",
+        class: "validate-tolerance".into(),
+        no_ties: false,
+        max_paths: 64,
+        run: Box::new(move |ctx| {
+            let mut net = build_net(Shape::Single(nout), &[L::Dense(nout, Act::Linear, false)]);
+            let w: V2 = (0..nout).map(|i| (0..nout).map(|j| lit(if i == j { 1.0 } else { 0.0 })).collect()).collect();
+            hooks::set_params(&mut net.layers[0], vec![t2(&w)], None);
+            ctx.fp_bound = Some(1.0e30);
+            let x = v1(ctx, "x", nout);
+            let t = v1(ctx, "t", nout);
+            let tol = ctx.var("tol");
+            ctx.assume(B::Lt(lit(0.0), tol));
+            let p = elems(&net.predict(&t1(&x)));
+            let (xs, ts) = (vec![t1(&x)], vec![t1(&t)]);
+            let (xr, tr): (Vec<&Tensor>, Vec<&Tensor>) = (xs.iter().collect(), ts.iter().collect());
+            let (_, acc) = net.validate(&xr, &tr, tol);
+            let within: V1 = (0..nout).map(|j| ite_lt((t[j] - p[j]).abs(), tol, lit(1.0), lit(0.0))).collect();
+            let want = if nout == 1 { within[0] } else { rsum(&within) / lit(nout as f32) };
+            ctx.claim("accuracy", Th::Fp, B::Eq(acc, want));
+        }),
+    }
+}
+
 /// single-output networks use the `target.len() == 1` branch of the accuracy rule
 pub fn validate_single_output_case(n: usize) -> Case {
     Case {
@@ -262,6 +293,8 @@ pub fn cases(tier: Tier, _seed: u64) -> Vec<Case> {
     }
     out.push(validate_case(2, Obj::CrossEntropy, Act::Softmax, true));
     out.push(validate_single_output_case(2));
+    out.push(accuracy_float_case(1));
+    out.push(accuracy_float_case(2));
     // sizes around the parallel chunk size (concrete weights, boundary samples symbolic)
     for n in [1usize, 63, 64, 65, 129] {
         out.push(validate_case(n, Obj::MSE, Act::Linear, false));
